@@ -13,9 +13,9 @@ import (
 	"runtime"
 	"strings"
 
+	"github.com/Dash-Industry-Forum/livesim2/internal/vshim/vrt"
 	"github.com/Dash-Industry-Forum/livesim2/pkg/logging"
 	"github.com/go-chi/chi/v5"
-	"github.com/go-chi/chi/v5/middleware"
 )
 
 type rTrack struct {
@@ -66,6 +66,9 @@ func rScratch(tag string) (string, error) {
 	if root == "" {
 		root = os.TempDir()
 	}
+	if st, err := os.Stat("/dev/shm"); err == nil && st.IsDir() {
+		root = "/dev/shm" // memory-backed: the explorers create and remove a storage tree per execution
+	}
 	d, err := os.MkdirTemp(root, "recv-"+tag+"-")
 	if err != nil {
 		return "", err
@@ -99,12 +102,28 @@ func rNewReceiver(ctx context.Context, storage string, cfg *Config, tsbd uint64)
 // setupRouterQuiet is setupRouter without the request logger (same handlers and Recoverer).
 func setupRouterQuiet(r *Receiver) http.Handler {
 	router := chi.NewRouter()
-	router.Use(middleware.Recoverer)
+	router.Use(quietRecoverer)
 	router.Use(addCorsHeaders)
 	router.Put(fmt.Sprintf("%s/*", r.prefix), r.SegmentHandlerFunc)
 	router.Post(fmt.Sprintf("%s/*", r.prefix), r.SegmentHandlerFunc)
 	router.Delete(fmt.Sprintf("%s/*", r.prefix), r.DeleteHandlerFunc)
 	return router
+}
+
+// quietRecoverer is chi's Recoverer without the stack print: a recovered panic becomes an empty 500;
+// the runtime's own unwinding sentinel is passed on.
+func quietRecoverer(next http.Handler) http.Handler {
+	return http.HandlerFunc(func(w http.ResponseWriter, r *http.Request) {
+		defer func() {
+			if p := recover(); p != nil {
+				if vrt.IsAbort(p) {
+					panic(p)
+				}
+				w.WriteHeader(http.StatusInternalServerError)
+			}
+		}()
+		next.ServeHTTP(w, r)
+	})
 }
 
 func rPut(h http.Handler, path string, body []byte, withLen bool, user, pswd string) rResp {
